@@ -79,7 +79,7 @@ class FlattenFamily(Family):
 
 class LibraryFlatten(Family):
     name = 'library'
-    rule = ('repetition-code constructor (distance 2..3(4), cycles 0..4(6), refocusing on/off, zero/alternating states) and multi-round constructor (rounds lists over {0..3}), '
+    rule = ('repetition-code constructors (full: distance 2..3(4), cycles 0..4(6), refocusing on/off, zero/alternating states; simplified: same distances and cycles) and multi-round constructor (rounds lists over {0..3}), '
             'modifiers applied: listing order, schedule, acquisition indices and Stim program identical before/after flatten(); non-trivial = at least one QEC cycle')
 
     def __init__(self, tier):
@@ -97,6 +97,7 @@ class LibraryFlatten(Family):
                 for refocus in (True, False):
                     for pat in (0, 1):
                         out.append(('single', d, n, refocus, pat))
+                out.append(('simplified', d, n, True, 0))
         # one long experiment: the flattened circuit is a single deep relation graph (hundreds of relation steps)
         out.append(('single', 2, 30 if tier == 'quick' else 60, True, 0))
         lists = [(0,), (1,), (2,), (0, 1), (2, 1), (3, 0, 1), (4, 3)] if tier == 'quick' else [(0,), (1,), (2,), (3,), (0, 1), (1, 0), (2, 1), (3, 0, 1), (0, 2, 4), (4, 1)]
@@ -113,7 +114,7 @@ class LibraryFlatten(Family):
     def run(self, case):
         from qce_circuit.language import InitialStateContainer, InitialStateEnum
         from qce_circuit.library.repetition_code.circuit_components import RepetitionCodeDescription
-        from qce_circuit.library.repetition_code.circuit_constructors import construct_repetition_code_circuit, construct_repetition_code_multi_round_circuit
+        from qce_circuit.library.repetition_code.circuit_constructors import construct_repetition_code_circuit, construct_repetition_code_multi_round_circuit, construct_repetition_code_circuit_simplified
         kind, d, n, refocus, pat = case
         res = Res()
         states = [InitialStateEnum.ONE if (pat and i % 2) else InitialStateEnum.ZERO for i in range(d)]
@@ -121,6 +122,8 @@ class LibraryFlatten(Family):
         desc = RepetitionCodeDescription.from_initial_state(init, qubit_refocusing=refocus)
         if kind == 'single':
             c = construct_repetition_code_circuit(qec_cycles=n, description=desc, initial_state=init)
+        elif kind == 'simplified':
+            c = construct_repetition_code_circuit_simplified(qec_cycles=n, description=desc, initial_state=init)
         else:
             c = construct_repetition_code_multi_round_circuit(qec_cycles=list(n), description=desc, initial_state=init)
             # the multi-round constructor relies on apply_modifiers() + flatten() per round: its program must be the
@@ -175,7 +178,7 @@ class LibraryFlatten(Family):
         res.states = [res.outcome]
         res.transitions = 3
         res.validated = 1
-        res.trivial = (n == 0) if kind == 'single' else False
+        res.trivial = (n == 0) if kind in ('single', 'simplified') else False
         return res
 
 
